@@ -120,6 +120,8 @@ type poolComp struct {
 	deposits map[string]*big.Int
 	paid     map[string]*big.Int
 	settleOK bool
+	duringNode string
+	duringAmt  *big.Int
 	conns    map[string]*fakeConn
 	outcomes map[string]string // host name -> ack|err|hang for the current peer request
 	driver   string
@@ -199,6 +201,10 @@ func (c *poolComp) setup(t []string) string {
 	}
 	if get("settle") == "1" {
 		c.pay.Settle = func(account store.Account, amount *big.Int, newBalance *big.Int) (string, error) {
+			// another request's credit lands while this settlement is in flight
+			if c.duringNode != "" {
+				c.st.AddNodeBalance(store.NodeID(c.duringNode), c.duringAmt)
+			}
 			if !c.settleOK {
 				return "", errors.New("settlement failed")
 			}
@@ -320,6 +326,22 @@ func signKind(kind string, who *identity, method string, nonce int64, args ...in
 	return ""
 }
 
+// find0x: the signature kind `good0x` asks for a genuine signature whose text happens to begin with "0x" (one in
+// 4096 base64 signatures does): the nonce is moved forward until the node's own signature has that form.
+var searchNs int64
+
+func find0x(who *identity, method string, nonce int64, args ...interface{}) int64 {
+	start := time.Now()
+	defer func() { searchNs += int64(time.Since(start)) }()
+	for k := int64(0); k < 60000; k++ {
+		s, err := request.Sign(who.key, method, who.id, nonce+k, args...)
+		if err == nil && strings.HasPrefix(s, "0x") {
+			return nonce + k
+		}
+	}
+	return nonce
+}
+
 func (c *poolComp) sensitive(t0, t1, window int64) bool {
 	for _, ts := range c.times {
 		d := satAdd(ts, window)
@@ -332,7 +354,7 @@ func (c *poolComp) sensitive(t0, t1, window int64) bool {
 
 func (c *poolComp) Exec(t []string) (extra []string, out string, eff bool) {
 	if c.poisoned {
-		return nil, "noop", false
+		return []string{"#skipped"}, "noop", false
 	}
 	if t[0] == "cfg" {
 		return nil, c.setup(t), false
@@ -343,6 +365,8 @@ func (c *poolComp) Exec(t []string) (extra []string, out string, eff bool) {
 	t0 := time.Now().UnixNano()
 	extra, out, eff = c.exec(t)
 	t1 := time.Now().UnixNano()
+	t0 += searchNs // time spent looking for a signature of a particular form, before the pool was called
+	searchNs = 0
 	if t[0] != "sleep" && (c.sensitive(t0, t1, int64(store.ExpireInterval)) || c.sensitive(t0, t1, int64(store.ExpireNonce))) {
 		c.poisoned = true
 		return []string{"#skipped"}, "noop", false
@@ -484,6 +508,10 @@ func (c *poolComp) exec(t []string) (extra []string, out string, eff bool) {
 			}
 			req.PeerInfo = append(req.PeerInfo, pi)
 		}
+		if t[3] == "good0x" {
+			nonce = find0x(who, "vipnode_update", nonce, req)
+			t[2], t[3] = TTok(nonce), "good"
+		}
 		var sig string
 		if t[3] == "oldfmt" {
 			sig = signKind("good", who, "vipnode_update", nonce, struct {
@@ -539,6 +567,10 @@ func (c *poolComp) exec(t []string) (extra []string, out string, eff bool) {
 		c.times = append(c.times, nonce)
 		num, _ := strconv.Atoi(get("num"))
 		req := pool.PeerRequest{Num: num, Kind: get("kind")}
+		if t[3] == "good0x" {
+			nonce = find0x(who, "vipnode_peer", nonce, req)
+			t[2], t[3] = TTok(nonce), "good"
+		}
 		alteredArgs = []interface{}{pool.PeerRequest{Num: num + 1, Kind: req.Kind}}
 		sig := signKind(t[3], who, "vipnode_peer", nonce, req)
 		for k := range c.outcomes {
@@ -674,6 +706,12 @@ func (c *poolComp) exec(t []string) (extra []string, out string, eff bool) {
 		c.times = append(c.times, nonce)
 		sig := signKind(t[3], who, "pool_withdraw", nonce)
 		c.settleOK = get("settle") == "ok"
+		c.duringNode, c.duringAmt = "", nil
+		if d := get("during"); d != "" {
+			f := strings.SplitN(d, ":", 2)
+			c.duringNode, c.duringAmt = realID(f[0]), mustBig(f[1])
+		}
+		defer func() { c.duringNode = "" }()
 		before := new(big.Int)
 		if p := c.paid[who.id]; p != nil {
 			before.Set(p)
